@@ -18,7 +18,9 @@ from typing import Optional
 
 from vivarium.core.registry import divider_registry, serializer_registry, updater_registry
 from vivarium.core.process import ParallelProcess, Process
-from vivarium.library.dict_utils import deep_compare, deep_merge, deep_merge_check, MULTI_UPDATE_KEY
+from vivarium.library.dict_utils import (
+    deep_compare, deep_copy_internal, deep_merge, deep_merge_check,
+    MULTI_UPDATE_KEY)
 from vivarium.library.topology import dict_to_paths
 from vivarium.core.types import Processes, Topology, State, Steps, Flow
 from vivarium.core.serialize import QuantitySerializer
@@ -1381,8 +1383,11 @@ class Store:
         for daughter, daughter_state in \
                 zip(daughters, daughter_states):
             # use initial state as default, merge in divided values
+            # (on a copy: a divider may hand both daughters the same
+            # dictionary)
             merged_initial_state = deep_merge(
-                daughter_state, daughter.get('initial_state', {}))
+                deep_copy_internal(daughter_state),
+                daughter.get('initial_state', {}))
 
             daughter_key = daughter['key']
             daughter_path = (daughter_key,)
